@@ -245,15 +245,18 @@ impl LibraryPath {
         }
         validate_path_len(source.as_ref())?;
 
-        // special handling of the first component as it may contain non-alphanumeric characters
-        let (path, mut num_components) = if source.as_ref().starts_with(Self::KERNEL_PATH) {
-            let split_at = Self::KERNEL_PATH.len() + Self::PATH_DELIM.len();
-            (source.as_ref().split_at(split_at).1, 1)
-        } else if source.as_ref().starts_with(Self::EXEC_PATH) {
-            let split_at = Self::EXEC_PATH.len() + Self::PATH_DELIM.len();
-            (source.as_ref().split_at(split_at).1, 1)
-        } else {
-            (source.as_ref(), 0)
+        // special handling of the first component as it may contain non-alphanumeric characters;
+        // a special first component is either the whole path or is followed by the delimiter
+        let source = source.as_ref();
+        let special = [Self::KERNEL_PATH, Self::EXEC_PATH].into_iter().find(|prefix| {
+            source
+                .strip_prefix(prefix)
+                .map_or(false, |rest| rest.is_empty() || rest.starts_with(Self::PATH_DELIM))
+        });
+        let (path, mut num_components) = match special {
+            Some(prefix) if source.len() == prefix.len() => return Ok(1),
+            Some(prefix) => (&source[prefix.len() + Self::PATH_DELIM.len()..], 1),
+            None => (source, 0),
         };
 
         // count the number of components in the path and make sure each component is valid
